@@ -18,6 +18,8 @@ import zipfile
 
 ID = "C05"
 LEVEL = "exploration"
+SUITE_UNDER_MONITORS = True  # thorough tier: the unedited repository tests run with this property's contracts loaded
+SUITE_CONTRACTS = ("iwa",)
 CONTRACTS = ("iwa",)
 PY_FLAGS = ["-X", "faulthandler"]
 REACH = {"IWAFile.from_buffer": "IWAFile.from_buffer", "IWAFile.to_buffer": "IWAFile.to_buffer",
